@@ -58,6 +58,39 @@ theorem C08_trans_recv (f a b c d : UInt8) (rest : GB.Bytes) :
     · simp [h1, h2]
     · simp [h1, h2]
 
+/-- what `OnMessage` sends on `stream.events` / closes, from the four values the regenerated range yields
+    (`stream.closed`, `event.err != nil`, `event.data`, the delivery condition); both framing errors are
+    InvalidArgument statuses — which of the two messages it is follows from `len(data) = 0` -/
+def GB.C08.TransTie.frameEvents (data : Bytes) (r : Bool × Bool × Bytes × Bool) : List GB.C08.WSEv :=
+  (if r.2.2.2 then
+      (if r.2.1 then [GB.C08.WSEv.err (if data.length = 0 then GB.C08.RecvErr.flow else GB.C08.RecvErr.wsHeader)]
+       else [GB.C08.WSEv.msg r.2.2.1])
+    else []) ++ (if r.1 then [GB.C08.WSEv.eof] else [])
+
+/-- the WebSocket sub-protocol framing of `OnMessage` (after the metadata message, stream not closed): flow-control
+    byte (`data[0] == 1` closes), `len(data) >= 6` ⇒ payload `data[6:]`, 2…5 bytes ⇒ header error, empty ⇒ flow-control
+    error, exactly 1 byte ⇒ nothing delivered; delivery condition `len(data) >= 6 || event.err != nil` (fix D8).
+    The model's `onMessage` equals the regenerated range run from `event = gwsReadEvent{}` and `stream.closed = false`. -/
+theorem C08_trans_onMessage_frame (mdOk : GB.Bytes → Bool) (st : GB.C08.WS) (data : GB.Bytes)
+    (hc : st.closed = false) (hm : st.receivedMD = true) :
+    GB.C08.onMessage mdOk st data =
+      let r := GB.Generated.Trans.onMessage_frame data false false []
+      ({ st with closed := r.1 }, GB.C08.TransTie.frameEvents data r) := by
+  rcases data with _ | ⟨a, _ | ⟨b, _ | ⟨c, _ | ⟨d, _ | ⟨e, _ | ⟨f, rest⟩⟩⟩⟩⟩⟩
+  case cons.cons.cons.cons.cons.cons =>
+    have h1 : (0:Int) < ↑rest.length + 1 + 1 + 1 + 1 + 1 + 1 := by omega
+    have h2 : (6:Int) ≤ ↑rest.length + 1 + 1 + 1 + 1 + 1 + 1 := by omega
+    have h3 : ((↑rest.length : Int) + 1 + 1 + 1 + 1 + 1 + 1).toNat = rest.length + 6 := by omega
+    simp [GB.C08.onMessage, GB.Generated.Trans.onMessage_frame, GB.C08.TransTie.frameEvents, hc, hm, len, slice, idx,
+      GB.C08.wsOff, h1, h2, h3]
+  all_goals
+    simp [GB.C08.onMessage, GB.Generated.Trans.onMessage_frame, GB.C08.TransTie.frameEvents, hc, hm, len, slice, idx,
+      GB.C08.wsOff]
+
+example : GB.Generated.Trans.onMessage_frame [1] false false [] = (true, false, [], false) := by decide
+example : GB.Generated.Trans.onMessage_frame [0, 0, 0, 0, 0, 1, 7] false false [] = (false, false, [7], true) := by decide
+example : GB.Generated.Trans.onMessage_frame [0, 0, 0] false false [] = (false, true, [], true) := by decide
+example : GB.Generated.Trans.onMessage_frame [] false false [] = (false, true, [], true) := by decide
 example : GB.Generated.Trans.recv_length [0, 0, 0, 1, 2] = .done 258 := by decide
 example : GB.Generated.Trans.recv_length [128, 0, 0, 0, 0] = .ret 0 := by decide
 example : GB.Generated.Trans.recv_length [0, 0, 64, 0, 1] = .ret 1 := by decide
